@@ -107,18 +107,6 @@ impl<Wr: Write> XmlSerializer<Wr> {
         }
     }
 
-    #[inline(always)]
-    fn qual_name(&mut self, name: &QualName) -> io::Result<()> {
-        self.find_or_insert_ns(name);
-        write_qual_name(&mut self.writer, name)
-    }
-
-    #[inline(always)]
-    fn qual_attr_name(&mut self, name: &QualName) -> io::Result<()> {
-        self.find_or_insert_ns(name);
-        write_qual_name(&mut self.writer, name)
-    }
-
     fn find_uri(&self, name: &QualName) -> bool {
         let mut found = false;
         for stack in self.namespace_stack.0.iter().rev() {
@@ -128,6 +116,16 @@ impl<Wr: Write> XmlSerializer<Wr> {
             }
         }
         found
+    }
+
+    /// Is a non-empty default namespace in scope?
+    fn default_bound(&self) -> bool {
+        for stack in self.namespace_stack.0.iter().rev() {
+            if let Some(Some(el)) = stack.get(&None) {
+                return !el.is_empty();
+            }
+        }
+        false
     }
 
     fn find_or_insert_ns(&mut self, name: &QualName) {
@@ -148,8 +146,20 @@ impl<Wr: Write> Serializer for XmlSerializer<Wr> {
     {
         self.namespace_stack.push(NamespaceMap::empty());
 
+        // Register every name of the tag before any declaration is written.
+        self.find_or_insert_ns(&name);
+        if name.prefix.is_none() && name.ns.is_empty() && self.default_bound() {
+            if let Some(last_ns) = self.namespace_stack.0.last_mut() {
+                last_ns.insert(&name);
+            }
+        }
+        let attrs: Vec<AttrRef<'a>> = attrs.collect();
+        for (attr_name, _) in attrs.iter() {
+            self.find_or_insert_ns(attr_name);
+        }
+
         self.writer.write_all(b"<")?;
-        self.qual_name(&name)?;
+        write_qual_name(&mut self.writer, &name)?;
         if let Some(current_namespace) = self.namespace_stack.0.last() {
             for (prefix, url_opt) in current_namespace.get_scope_iter() {
                 self.writer.write_all(b" xmlns")?;
@@ -159,18 +169,15 @@ impl<Wr: Write> Serializer for XmlSerializer<Wr> {
                 }
 
                 self.writer.write_all(b"=\"")?;
-                let url = if let Some(ref a) = *url_opt {
-                    a.as_bytes()
-                } else {
-                    b""
-                };
-                self.writer.write_all(url)?;
+                if let Some(ref a) = *url_opt {
+                    write_to_buf_escaped(&mut self.writer, a, true)?;
+                }
                 self.writer.write_all(b"\"")?;
             }
         }
         for (name, value) in attrs {
             self.writer.write_all(b" ")?;
-            self.qual_attr_name(name)?;
+            write_qual_name(&mut self.writer, name)?;
             self.writer.write_all(b"=\"")?;
             write_to_buf_escaped(&mut self.writer, value, true)?;
             self.writer.write_all(b"\"")?;
@@ -183,7 +190,7 @@ impl<Wr: Write> Serializer for XmlSerializer<Wr> {
     fn end_elem(&mut self, name: QualName) -> io::Result<()> {
         self.namespace_stack.pop();
         self.writer.write_all(b"</")?;
-        self.qual_name(&name)?;
+        write_qual_name(&mut self.writer, &name)?;
         self.writer.write_all(b">")
     }
 
